@@ -123,12 +123,18 @@ static void stop_after_timeout(int signal_number) {
     stop_with(EXIT_FAILURE);
 }
 
+/* Ctrl-C is ignored only while waiting for a test; afterwards the runner has the disposition it
+   was started with (e.g. ignored under nohup), so that every test inherits the same one */
+static sighandler_t previous_ctrl_c_handler = SIG_DFL;
+
 static void ignore_ctrl_c(void) {
-    signal(SIGINT, SIG_IGN);
+    sighandler_t previous = signal(SIGINT, SIG_IGN);
+    if (previous != SIG_ERR)
+        previous_ctrl_c_handler = previous;
 }
 
 static void allow_ctrl_c(void) {
-    signal(SIGINT, SIG_DFL);
+    signal(SIGINT, previous_ctrl_c_handler);
 }
 
 /* vim: set ts=4 sw=4 et cindent: */
